@@ -65,6 +65,7 @@
 #include "KeyTable.hpp"
 #include "StylesheetConstructionContext.hpp"
 #include "StylesheetExecutionContext.hpp"
+#include "StylesheetRoot.hpp"
 #include "XalanMatchPatternData.hpp"
 
 
@@ -93,6 +94,7 @@ Stylesheet::Stylesheet(
     m_XSLTNamespaceURI(constructionContext.getXSLTNamespaceURI(),constructionContext.getMemoryManager()),
     m_imports(constructionContext.getMemoryManager()),
     m_importsSize(0),
+    m_importPrecedence(0),
     m_namespaces(constructionContext.getMemoryManager()),
     m_namespaceDecls(constructionContext.getMemoryManager()),
     m_isWrapperless(false),
@@ -557,6 +559,10 @@ Stylesheet::postConstruction(StylesheetConstructionContext&     constructionCont
 
             ++i;
         }
+
+        // All of the stylesheets we import, directly or indirectly, have
+        // their rank now, and ours is the next one...
+        m_importPrecedence = m_stylesheetRoot.getNextImportPrecedence();
     }
 
     {
